@@ -684,7 +684,11 @@ def b_isinstance(eng, e, st):
 
 def _isinstance1(eng, v, cname, node, st):
     k = v.ty.kind
-    prim = {"int": ("int", "bool"), "bool": ("bool",), "str": ("str",), "list": ("list",), "float": (), "dict": ()}
+    if k == "union":
+        tag, a, b = v.t
+        return z3.If(tag, _isinstance1(eng, a, cname, node, st), _isinstance1(eng, b, cname, node, st))
+    prim = {"int": ("int", "bool"), "bool": ("bool",), "str": ("str",), "list": ("list",), "float": (), "dict": (),
+            "tuple": ("tuple",)}
     if cname in prim:
         if k in ("ref", "any") and cname in ("int", "str", "dict", "list", "float"):
             if k == "any":
@@ -873,6 +877,9 @@ BUILTINS = {
     "hash": b_hash,
     "print": b_print,
 }
+
+from .library import MODELS as _LIBRARY_MODELS  # noqa: E402  ([TRUSTED] standard-library contracts)
+BUILTINS.update(_LIBRARY_MODELS)
 
 
 # --------------------------------------------------------------------------
